@@ -64,6 +64,21 @@ def main():
                 by_mod.setdefault(id(owner), (owner, {}))[1][name] = qs
             for owner, fl in by_mod.values():
                 driver.triage(rep, fl, (lambda n, q, mod=owner: mod.replay(rep, n, q)) if owner is not None and hasattr(owner, "replay") else None, ledger, known)
+        # mechanical scan of the sidecars: every place where a fact is *assumed* (callee contracts, class invariants, axioms) rather than
+        # proved -- `hyps.append(...)`, `hyps += ...`, `requires=` lists are preconditions and are listed by the contracts themselves
+        import inspect
+        import re as _re
+
+        sites = {}
+        for modname, mod in mods:
+            try:
+                src = inspect.getsource(mod).splitlines()
+            except (OSError, TypeError):
+                continue
+            hits = [i + 1 for i, ln in enumerate(src) if _re.search(r"\bhyps\.append\(|\bhyps \+= |\.hyps\.insert\(", ln) and not ln.lstrip().startswith("#")]
+            if hits:
+                sites[modname] = hits
+        rep.extra["assumed_fact_sites"] = {k: {"count": len(v), "lines": v[:60]} for k, v in sites.items()}
         for modname, mod in mods:
             if hasattr(mod, "extra_checks"):
                 mod.extra_checks(rep, a.pid, ledger, known)
